@@ -271,8 +271,16 @@ func (c *compiler) evalUserFunction(node *userFunction, args []ast.Expression) (
 		c.ctx.Set(p.Value, vals[i])
 	}
 
+	caller := c.curStmt
 	res, err := c.evalBlockStatement(node.Block)
 	if err != nil {
+		if node.program != c.program {
+			// the function was written in another template (the one that
+			// includes this partial, an earlier render with the same
+			// context): the lines of its body count there; here the
+			// failing statement is the one that holds the call
+			c.curStmt = caller
+		}
 		return nil, err
 	}
 
@@ -307,7 +315,7 @@ func flattenReturn(ro returnObject, vals []interface{}) []interface{} {
 func (c *compiler) evalFunctionLiteral(node *ast.FunctionLiteral) (interface{}, error) {
 	params := node.Parameters
 	block := node.Block
-	return &userFunction{Parameters: params, Block: block}, nil
+	return &userFunction{Parameters: params, Block: block, program: c.program}, nil
 }
 
 func (c *compiler) evalPrefixExpression(node *ast.PrefixExpression) (interface{}, error) {
